@@ -1025,8 +1025,11 @@ theorem C12_jitter_from_arrival_refuted : ¬ C12_jitter_from_arrival_full := by
 `Zc.GenFn.Queue` is regenerated from the *bodies* of `MulticastOutgoingQueue.async_add`, `async_remove_answers`,
 `_remove_answers_from_queue` and `async_ready` (`tools/gen_fn.py`; `random.randint`, `loop.time()`, `current_time_millis()` are parameters, `loop.call_at` and
 `zc.async_send` returned effects); `GenFacts/FnQueue.lean` proves that the `Queue` model above computes what those bodies
-compute.  So the window theorems speak about a queue whose every step is the translated source, and an edit of one of the four
-bodies breaks a named lemma of `FnQueue` at stage P. -/
+compute.  **What this transports**: the container operations of the model (`Queue.add`, `Queue.removeRecords`, `Queue.popReady`) are the
+translated bodies, along every sequence of calls (`C12_queue_is_source`), so an edit of one of the four bodies that changes what it
+computes breaks a named lemma of `FnQueue` at stage P.  **What it does not**: the window theorems above are stated over the
+hand-written runs (`QRun`/`HRun`, the host's scheduling of `async_ready`); no lemma here re-states them over `FnQueue.runGen`, so they
+are theorems about the translated source only through the reader's composition of the two (same operations, same order). -/
 section Tie
 open Zc.Py Zc.GenFn.Queue Zc.GenFacts.FnQueue
 
